@@ -192,15 +192,23 @@ def fresh_initial(workdir, case, path, version, memo=None):
     return res
 
 
-def compare_states(state, fresh, version, fresh_v2=None, sorts=None, rejected=()):
+def compare_states(state, fresh, version, fresh_v2=None, sorts=None, rejected=(), assigned=None):
     """C14 postcondition.  `state`: model client state; `fresh`: initial message of a newly started server of the
     same protocol version on the saved file; for version 1 `fresh_v2` (initial message of a version-2 server on the
     same file) supplies the visibility that version 1 cannot express.  `sorts` (option name -> type or
     'choice-member') and `rejected` (options whose most recent set request did not produce the requested value, e.g.
     out of range or invisible at that time) only refine the class ids: <channel>:<what>:<sort>[:unwritten-option |
-    :after-rejected-assignment], 'unwritten-option' = the option has no value in the fresh state.  Returns (class, text)s."""
+    :after-rejected-assignment | :user-value-outside-moved-range], 'unwritten-option' = the option has no value in the
+    fresh state; 'user-value-outside-moved-range' = the option's latest assignment (`assigned`: name -> number) took
+    effect when it was made and lies outside the range the fresh server reports now (a later request moved the active
+    range away from the user value).  Returns (class, text)s."""
     found = []
     sorts = sorts or {}
+    assigned = assigned or {}
+
+    def outside(v, bounds):
+        return (isinstance(v, (int, float)) and not isinstance(v, bool) and isinstance(bounds, (list, tuple)) and len(bounds) == 2
+                and not bounds[0] <= v <= bounds[1])
 
     class _P(object):
         def append(self, item):
@@ -211,6 +219,8 @@ def compare_states(state, fresh, version, fresh_v2=None, sorts=None, rejected=()
                     cls += ":unwritten-option"
                 elif key in rejected:
                     cls += ":after-rejected-assignment"
+                elif outside(assigned.get(key), fresh.get("ranges", {}).get(key)):
+                    cls += ":user-value-outside-moved-range"
             found.append((cls, item[1]))
 
     problems = _P()
@@ -293,6 +303,7 @@ def check_history(workdir, case, memo=None):
     state = client_new(objs[0])
     dirty = False
     rejected = set()  # classification aid only: options whose latest set / loaded assignment did not take effect
+    assigned = {}  # classification aid only: option -> the value its latest set / loaded assignment put into effect
     sorts = case.get("sorts") or {}
 
     def note_assignments(text):
@@ -321,8 +332,10 @@ def check_history(workdir, case, memo=None):
                 got = state.get("values", {}).get(name)
                 if got != want or isinstance(got, bool) != isinstance(want, bool):
                     rejected.add(name)
+                    assigned.pop(name, None)
                 else:
                     rejected.discard(name)
+                    assigned[name] = want
 
     note_assignments(case.get("sdk0", ""))
     for i, reply in enumerate(objs[1:]):
@@ -333,6 +346,7 @@ def check_history(workdir, case, memo=None):
         if isinstance(req, dict):
             if "load" in req:
                 rejected.clear()
+                assigned.clear()
                 if req["load"] is None and not any(isinstance(q.get("load"), str) or isinstance(q.get("save"), str) for q in reqs[:i]):
                     note_assignments(case.get("sdk0", ""))
                 elif req["load"] in case.get("files", {}):
@@ -343,13 +357,19 @@ def check_history(workdir, case, memo=None):
                 got = state.get("values", {}).get(k)
                 if got != want or isinstance(got, bool) != isinstance(want, bool):
                     rejected.add(k)
+                    assigned.pop(k, None)
                 else:
                     rejected.discard(k)
+                    assigned[k] = want
             if version >= 3:
                 for k in req.get("reset") or []:
+                    if k not in sorts:
+                        # "all" or a menu id (or an unknown name): which options lose their user value is not tracked
+                        assigned.clear()
                     if k == "all":
                         rejected.clear()
                     rejected.discard(k)
+                    assigned.pop(k, None)
         if any(reply.get(ch) for ch in CHANNELS):
             dirty = True
         target = req.get("save") if isinstance(req, dict) else None
@@ -369,7 +389,7 @@ def check_history(workdir, case, memo=None):
         if dirty:
             res["nontrivial"].append(i)
         dirty = False
-        for cls, text in compare_states(state, fresh, version, fresh_v2, sorts, rejected):
+        for cls, text in compare_states(state, fresh, version, fresh_v2, sorts, rejected, assigned):
             res["violations"].append((cls, "protocol v%d, after request #%d %s (checkpoint %s): %s" % (version, i, json.dumps(req), target, text)))
     return res
 
